@@ -268,7 +268,7 @@ func (w *World) Stop() {
 	if w.Proc == nil {
 		return
 	}
-	w.Node.Release("")
+	w.Node.flush() // requests of the stopped process are answered; the node stays slow if it was
 	w.Proc.cancel()
 	w.Proc = nil
 }
@@ -611,6 +611,21 @@ func (w *World) Head(back uint64) error {
 	w.Log.heads = append(w.Log.heads, rec)
 	w.Log.mu.Unlock()
 	return w.step("head")
+}
+
+// ReleaseHeld lets the duty requests held by Node.Hold(kind) ("" = all) be
+// answered now, waits for quiescence and fires what became due.
+func (w *World) ReleaseHeld(kind string) error {
+	w.begin("release")
+	defer w.end()
+	w.Node.Release(kind)
+	if err := w.Quiesce(); err != nil {
+		return err
+	}
+	if err := w.advanceTo(w.Clock.Now()); err != nil {
+		return err
+	}
+	return w.step("released")
 }
 
 // Block delivers a block event.
